@@ -2,7 +2,8 @@ import sys, json, importlib
 sys.path.insert(0,'/verif')
 from cao.facts import Facts
 from cao import extract
-p,info=extract.get_facts('/repo','default')
+import os
+p,info=extract.get_facts(os.environ.get('REPO','/repo'),os.environ.get('CAO_CONFIG','default'))
 print(info)
 F=Facts(p)
 mod=importlib.import_module('rules.'+sys.argv[1])
